@@ -172,13 +172,13 @@ class Ref:
                 if d == 0:
                     self.quote = not q
             elif k == "{":
-                if not q:
-                    self.depth += 1
+                # braces nest inside quoted values as well: a quote within braces does not end the value
+                self.depth += 1
             elif k == "}":
-                if q:
-                    pass
-                elif d > 0:
+                if d > 0:
                     self.depth -= 1
+                elif q:
+                    pass
                 else:
                     self._end_field(m)
                     self._finish(self._entry_event(end(m)), m, ev)
